@@ -243,7 +243,7 @@ def judge_td(d, wm, res):
     res["transitions"] += 1
     try:
         sol = TimeDomainSolution(circuit=adapt.circuit(d), w_max=float(F(wm)))
-        ts = np.linspace(0.0, 25.0, 25)
+        ts = np.linspace(-12.5, 25.0, 25)
         comps = [c for c in d["components"] if c[0] != "ground"]
         bump(res["hits"], "power_formula_time")
         nz = False
